@@ -859,7 +859,10 @@ def search(ctx, exe, det, tr, stats):
             if observed is None and (definite or not ctx.quick or True):
                 texe = texe or tsan_build(ctx)
                 if texe:
-                    races = tsan_races(ctx, texe, cases[:1], ["4:2:1", "8:1:1"])
+                    # static schedules first: every thread must then run its share of the iterations, so the
+                    # happens-before analysis sees both accesses whatever the timing (under load one thread can
+                    # grab every iteration of a small dynamic loop)
+                    races = tsan_races(ctx, texe, cases[:2], ["4:1:0", "8:1:1", "4:2:1"])
                     stats["tsan_search_runs"] = stats.get("tsan_search_runs", 0) + 1
                     if races:
                         observed = "ThreadSanitizer+Archer: " + races[0][1]
@@ -983,7 +986,9 @@ def run(ctx):
     res = run_cases(ctx, exe, cases, combos, timeout=1500 if not quick else 300)
     n_eval = judge(ctx, cases, res, combos, stats)
     large = large_cases(ctx, quick)
-    res_l = run_cases(ctx, exe, large, LARGE_COMBOS, timeout=1500 if not quick else 300)
+    # generous timeout: if the library stopped logging progress lines the t-SNE cases run all 1000 iterations
+    # (about 80 s per combination in the quick build) instead of 51 — slow, but not a hang
+    res_l = run_cases(ctx, exe, large, LARGE_COMBOS, timeout=1800 if not quick else 900)
     n_eval += judge(ctx, large, res_l, LARGE_COMBOS, stats)
     res.update(res_l)
     cases += large
